@@ -15,7 +15,9 @@
      "<call>:<who>:<clause>"  anything else, named after the first clause of the property that
                       fails (count, sev, dest, format, msg, time, rec-attrs, given-attrs, ...;
                       "rec-attrs:dupkey" / "given-attrs:dupkey" when every missing attribute
-                      shares its key with another one of its group - see Adapter, EQUAL KEYS).
+                      shares its key with another one of its group - see Adapter, EQUAL KEYS;
+                      "...-attrs:valuer", ":group-valuer", ":valuer-chain", ":valuer-in-valuer" when
+                      every missing attribute has LogValuers on its path - see AttrClause).
    PROCESSES.  The registry is process-wide and cannot be undone: the line "Proc" starts a new
    process (factory tables), "Reset" a new behaviour in the same process (the registry stays).
    Behaviours that register levels are executed in a process of their own.
@@ -59,11 +61,20 @@ Present(E, Os) == \E y \in 1..Len(Os) : LeafMatches(E, Os[y])
 \* with the same key anywhere in the record's tree `all` - but are not
 Missing(part, all, Os) == {L \in ToSet(part) : ~Displaced(L, all) /\ ~Present(L, Os)}
 
+\* name of the clause; ":dupkey" when every missing attribute shares its key with another one of its
+\* group; else, when every (uncontested) missing attribute has LogValuers on its path, the simplest
+\* such class: ":valuer" (a LogValuer leaf), ":group-valuer" (member of a group a LogValuer resolved
+\* to), ":valuer-chain" (a LogValuer resolving to a LogValuer), ":valuer-in-valuer" (a LogValuer
+\* inside a group that a LogValuer resolved to)
+VRank == <<"valuer", "group-valuer", "valuer-chain", "valuer-in-valuer">>
 AttrClause(name, part, all, Os) ==
     LET miss == Missing(part, all, Os)
+        unc == {L \in miss : ~Contested(L, all)}
+        cls == {VClass(L) : L \in unc}
     IN IF miss = {} THEN "ok"
-       ELSE IF \E L \in miss : ~Contested(L, all) THEN name
-       ELSE name \o ":dupkey"
+       ELSE IF unc = {} THEN name \o ":dupkey"
+       ELSE IF "plain" \in cls THEN name
+       ELSE name \o ":" \o VRank[Min({r \in 1..4 : VRank[r] \in cls})]
 
 MsgOK(m, o) == IF o.fmt = "color" THEN o.msg = FirstLine(m) ELSE o.msg = m
 
